@@ -271,8 +271,49 @@ def convert_clone(iso, tgt, inplace=False):
     if got != want:
         raise Violation(f"after conversion to {want} the isotherm reports {got}", tag="conversion_labels")
     if tgt.get("json"):
-        c = pgp.isotherm_from_json(pgp.isotherm_to_json(c))
+        via = tgt.get("via") or "json"
+        if via == "json":
+            c = pgp.isotherm_from_json(pgp.isotherm_to_json(c))
+        else:
+            c = _reimport(c, via)
     return c
+
+
+_DB_TEMPLATE = {}
+
+
+def _reimport(iso, via):
+    """Export and re-import through CSV or a SQLite database file (a format that refuses the isotherm makes no claim)."""
+    import os
+    import shutil
+    import tempfile
+    from pygaps.utilities.exceptions import pgError
+    tmp = tempfile.mkdtemp(prefix="c15_", dir="/dev/shm" if os.path.isdir("/dev/shm") else None)
+    try:
+        try:
+            if via == "csv":
+                return pgp.isotherm_from_csv(pgp.isotherm_to_csv(iso))
+            pid = os.getpid()
+            if _DB_TEMPLATE.get("pid") != pid:
+                from pygaps.utilities.sqlite_db_creator import db_create
+                tdir = tempfile.mkdtemp(prefix="c15_tpl_", dir="/dev/shm" if os.path.isdir("/dev/shm") else None)
+                db_create(os.path.join(tdir, "template.db"))
+                import atexit
+                atexit.register(shutil.rmtree, tdir, True)
+                _DB_TEMPLATE.update(pid=pid, path=os.path.join(tdir, "template.db"))
+            path = os.path.join(tmp, "iso.db")
+            shutil.copy(_DB_TEMPLATE["path"], path)
+            from pygaps.parsing import sqlite as pgsql
+            pgsql.isotherm_to_db(iso, db_path=path)
+            got = pgsql.isotherms_from_db(db_path=path)
+            if len(got) != 1:
+                raise Violation(f"one isotherm uploaded to a fresh database, {len(got)} retrieved", tag="reimport:db_count")
+            return got[0]
+        except pgError:
+            raise Inconclusive()
+    finally:
+        shutil.rmtree(tmp, ignore_errors=True)
+        K.reset_registries()
 
 
 def scaled_clone(iso, c):
@@ -383,6 +424,8 @@ def target(draw, abs_only=False, bases=None, json_share=4):
     loading = draw(st.sampled_from(pool))
     return {"p": list(p), "l": list(loading), "t": draw(st.sampled_from(["K", "°C"])),
             "order": draw(st.integers(0, 5)), "json": draw(st.sampled_from([False] * (json_share - 1) + [True])),
+            # when exported and re-imported: through JSON or a SQLite database file (CSV / Excel / AIF round data to 8 decimals: not a lossless route)
+            "via": draw(st.sampled_from(["json", "json", "db"])),
             # analyse first, then convert THE SAME object in place and analyse again (caches filled by the first analysis)
             "inplace": draw(st.sampled_from([False, False, True]))}
 
@@ -554,7 +597,7 @@ def run_pair(ctx, desc, entry, what, iso, run, norm, label_extra=(), scale_ok=Tr
     base = norm(outcomes[0][1], iso)
     other = norm(outcomes[1][1], conv)
     compare(f"{what} after conversion to ({tgt['p']}, {tgt['l']}, {tgt['t']}"
-            f"{', via JSON' if tgt.get('json') else ''})", entry, base, other)
+            f"{(', via ' + str(tgt.get('via') or 'json')) if tgt.get('json') else ''})", entry, base, other)
     c = desc.get("scale")
     if c is not None and scale_ok:
         sc = scaled_clone(iso, c)
